@@ -8,12 +8,12 @@ import (
 
 // Command is what the driver asks a simulation process to do.
 type Command struct {
-	Mode   string       `json:"mode"` // worker | replay | minimise | probe
+	Mode string `json:"mode"` // worker | replay | minimise | probe
 	// Isolate makes every execution of this command happen in a process of its own (exec.go).
-	Isolate bool `json:"isolate,omitempty"`
-	Worker WorkerConfig `json:"worker"`
-	In     string       `json:"in,omitempty"`
-	Out    string       `json:"out"`
+	Isolate bool         `json:"isolate,omitempty"`
+	Worker  WorkerConfig `json:"worker"`
+	In      string       `json:"in,omitempty"`
+	Out     string       `json:"out"`
 	// MaxAttempts bounds the minimiser.
 	MaxAttempts int `json:"max_attempts,omitempty"`
 }
